@@ -208,6 +208,22 @@ package keeper
 //@ ensures [error_only_when_all_before_are_flagged] err != nil ==> forall t int :: stored(queryId, t) && 0 <= t && t < unixms(timestampBefore) ==> agg_at(queryId, t).Flagged
 //@ iter 0 invariant [visited_are_flagged] mostRecent == nil && forall j in [0, $k) :: agg_at(queryId, iterkey(0, j)).Flagged
 
+//@ func (k Keeper).GetAggregateByTimestamp(ctx, queryId, timestamp) (aggregate, err)
+//@ requires [timestamp_not_before_1970] unixms(timestamp) >= 0
+//@ ensures [found_is_the_aggregate_stored_at_that_time] err == nil ==> stored(queryId, unixms(timestamp)) && aggregate == agg_at(queryId, unixms(timestamp))
+//@ ensures [fails_exactly_when_nothing_is_stored_at_that_time] !stored(queryId, unixms(timestamp)) ==> err != nil
+//@ ensures [reads_only] nothing_written()
+
+// The latest unflagged aggregate before a time whose aggregate reporter is the given one (no-stake / by-reporter lookups).
+//@ func (k Keeper).GetAggregateBeforeByReporter(ctx, queryId, timestamp, reporter) (aggregate, err)
+//@ requires [timestamp_not_before_1970] unixms(timestamp) >= 0
+//@ requires [stored_aggregate_reporters_are_addresses] forall t int :: stored(queryId, t) ==> bech32ok(agg_at(queryId, t).AggregateReporter)
+//@ ensures [never_fails] err == nil
+//@ ensures [found_is_stored_unflagged_by_that_reporter_and_strictly_before] aggregate != nil ==> exists t int :: stored(queryId, t) && 0 <= t && t < unixms(timestamp) && deref(aggregate) == agg_at(queryId, t) && !agg_at(queryId, t).Flagged && accbytes(agg_at(queryId, t).AggregateReporter) == bytes(reporter)
+//@ ensures [nothing_found_means_no_such_aggregate] aggregate == nil ==> forall t int :: stored(queryId, t) && 0 <= t && t < unixms(timestamp) ==> agg_at(queryId, t).Flagged || accbytes(agg_at(queryId, t).AggregateReporter) != bytes(reporter)
+//@ ensures [reads_only] nothing_written()
+//@ iter 0 invariant [visited_are_flagged_or_of_another_reporter] aggregate == nil && forall j in [0, $k) :: agg_at(queryId, iterkey(0, j)).Flagged || accbytes(agg_at(queryId, iterkey(0, j)).AggregateReporter) != bytes(reporter)
+
 //@ func (k Keeper).GetAggregateByIndex(ctx, queryId, index) (aggregate, timestamp, err)
 //@ requires [stored_timestamps_fit_int64] forall t int :: stored(queryId, t) ==> t < 9223372036854775808
 //@ ensures [found_is_the_index_th_in_time_order] err == nil ==> aggregate != nil && iterk(0) == index && unixms(timestamp) == iterkey(0, index) && stored(queryId, iterkey(0, index)) && deref(aggregate) == agg_at(queryId, iterkey(0, index))
